@@ -98,12 +98,19 @@ type c41Resolver struct {
 	addrs []net.IPAddr
 	calls int
 	takes time.Duration // the lookup takes this long
+	failFrom int        // lookups from this call number on fail (0: never)
 }
+
+var errC41Lookup = errors.New("c41: lookup failed")
 
 func (r *c41Resolver) LookupIPAddr(ctx context.Context, host string) ([]net.IPAddr, error) {
 	r.calls++
+	n := r.calls
 	if r.takes > 0 {
 		time.Sleep(r.takes)
+	}
+	if r.failFrom > 0 && n >= r.failFrom {
+		return nil, errC41Lookup
 	}
 	return r.addrs, nil
 }
